@@ -6,8 +6,9 @@
 From Coq Require Import ZArith List Bool.
 From RV.Model Require Import Base Word.
 From RV.Model Require Opaque History Cmp Conv Gen Ctor CtorTable.
-From RV.Run Require RunC04a RunC04b RunC04c RunC04d.
-From RV.Proofs Require PfC04a PfC04b PfC04c PfC04d.
+From RV.Run Require RunC04a RunC04b RunC04c RunC04d RunC02 RunC03 RunC07 RunC08 RunC13.
+From RV.Proofs Require PfC04a PfC04b PfC04c PfC04d PfC02 PfC03Closed PfC07 PfC08 PfC13Closed.
+From RV.Model Require ApproxPow2.
 Local Open Scope Z_scope.
 
 (* ======================= (a) closure under operation histories ======================= *)
@@ -135,6 +136,38 @@ Check C04_illformed_unobtainable : forall c bits limbs args,
   forall v, Ctor.ctor_outcome CtorTable.mentions_limbs CtorTable.runtime_check c bits limbs args <> Val v.
 Print Assumptions C04_illformed_unobtainable.
 
+(* approx_pow2 (libm's exp2 is an observed input of the model): whatever the estimate, a returned
+   value is canonical and the call does not panic *)
+Theorem C04_approx_pow2_canon : forall bits x b64, 0 <= bits -> inW x -> inW b64 ->
+  exists r, ApproxPow2.approx_pow2 bits x b64 = Val r /\
+            match r with Some w => canon bits w | None => True end.
+Proof. exact PfC04c.approx_pow2_canon. Qed.
+Check C04_approx_pow2_canon : forall bits x b64, 0 <= bits -> inW x -> inW b64 ->
+  exists r, ApproxPow2.approx_pow2 bits x b64 = Val r /\
+            match r with Some w => canon bits w | None => True end.
+Print Assumptions C04_approx_pow2_canon.
+
+(* parts (e)-(i): the remaining producers of Uint values run through the calls, models and
+   specifications of their own properties (whose specifications compare the raw result limbs
+   with the canonical limbs `uint_of bits value`) *)
+Theorem C04_other_producers :
+  (forall c, RunC07.wf c -> RunC07.spec c (RunC07.run c) = true) /\
+  (forall c, RunC08.wf c -> RunC08.spec c (RunC08.run c) = true) /\
+  (forall c, RunC13.wf c -> RunC13.spec c (RunC13.run c) = true) /\
+  (forall c, RunC03.wf c -> RunC03.spec c (RunC03.run c) = true) /\
+  (forall c, RunC02.wf c -> RunC02.spec c (RunC02.run c) = true).
+Proof.
+  exact (conj PfC07.C07_all (conj PfC08.C08_all (conj PfC13Closed.C13_all
+        (conj PfC03Closed.C03_all PfC02.C02_all)))).
+Qed.
+Check C04_other_producers :
+  (forall c, RunC07.wf c -> RunC07.spec c (RunC07.run c) = true) /\
+  (forall c, RunC08.wf c -> RunC08.spec c (RunC08.run c) = true) /\
+  (forall c, RunC13.wf c -> RunC13.spec c (RunC13.run c) = true) /\
+  (forall c, RunC03.wf c -> RunC03.spec c (RunC03.run c) = true) /\
+  (forall c, RunC02.wf c -> RunC02.spec c (RunC02.run c) = true).
+Print Assumptions C04_other_producers.
+
 (* ======================= non-vacuity ======================= *)
 (* U65: MAX + 1 wraps to 0 with the flag, !0 = MAX is masked, MAX * MAX = 1 — every register canonical *)
 Example C04a_nonvacuous :
@@ -152,6 +185,12 @@ Example C04c_nonvacuous :
   RunC04c.run (RunC04c.from_limbs 65 [0; 2]) = Panic /\
   RunC04c.run (RunC04c.rand09 65 0 [0; 0] [0xffffffffffffffff; 0xffffffffffffffff]) = Val [TL [0xffffffffffffffff; 1]].
 Proof. repeat split; vm_compute; reflexivity. Qed.
+(* approx_pow2(63.0) at BITS = 63: the leading bits 2^63 shifted by 0 do not fit -> None;
+   approx_pow2(1.6) at BITS = 64 with the estimate 2^0.6 * 2^63 -> 3 *)
+Example C04_approx_pow2_nonvacuous :
+  ApproxPow2.approx_pow2 63 0x404f800000000000 0x8000000000000000 = Val None /\
+  ApproxPow2.approx_pow2 64 0x3ff999999999999a 0xc2023aa0bfd5ccaa = Val (Some [3]).
+Proof. split; vm_compute; reflexivity. Qed.
 Example C04d_nonvacuous :
   RunC04d.wfb (RunC04d.ctor 64 2 3 0) = true /\ RunC04d.run (RunC04d.ctor 64 2 3 0) = CompileError /\
   RunC04d.run (RunC04d.ctor 64 1 3 0) = Val [TSome].
